@@ -6,7 +6,9 @@ Writes work/dict.txt (one `x<hex>` token per line): every string / byte-string /
 upper-case and swapped-case variants.  The harness mixes these tokens into its name pools and prefix
 seeds (util.rs `dictionary()`), so that a special word the implementation knows about — `UNC`, a reserved
 device name, a marker byte — and its near-misses (`unc`, `Unc`) are generated even though no small
-alphabet contains them.  Regenerated on every run; a missing file only means an empty dictionary.
+alphabet contains them.  Also writes work/nums.txt: the integer literals of the source ("magic numbers"),
+around which the harness places lengths, component counts and run lengths.  Regenerated on every run; a
+missing file only means an empty dictionary.
 """
 import glob
 import os
@@ -119,6 +121,32 @@ def main():
             continue
         for v in (s.lower(), s.upper(), s.swapcase(), s.capitalize()):
             out.add(v.encode("ascii"))
+    # MAGIC NUMBERS: every integer literal of the non-test source (decimal, hex, `1 << k`), so that lengths,
+    # counts and run lengths just below, at and above each of them are generated (a chunk size, a buffer
+    # length, a repetition cap, a narrow counter's limit … that a change introduces is then probed)
+    nums = set()
+    for f in files:
+        src = cut_tests(strip_comments(open(f, encoding="utf-8").read()))
+        src = re.sub(r"#!?\[[^\]]*\]", " ", src)
+        src = re.sub(r'b?"(?:\\.|[^"\\])*"', '""', src)
+        for m in re.finditer(r"(?<![\w.])(\d[\d_]*)\s*<<\s*(\d+)", src):
+            try:
+                nums.add(int(m.group(1).replace("_", "")) << int(m.group(2)))
+            except ValueError:
+                pass
+        for m in re.finditer(r"(?<![\w.])(0x[0-9a-fA-F_]+|\d[\d_]*)(?:usize|u8|u16|u32|u64|i8|i16|i32|i64|isize)?\b", src):
+            tok = m.group(1).replace("_", "")
+            try:
+                nums.add(int(tok, 16) if tok.startswith("0x") else int(tok))
+            except ValueError:
+                pass
+        # the limits of the narrow integer types a counter may be kept in
+        for ty, lim in (("i8", 127), ("u8", 255), ("i16", 32767), ("u16", 65535)):
+            if re.search(r"\b%s\b" % ty, src):
+                nums.add(lim)
+    nums = sorted(n for n in nums if 3 <= n <= (1 << 21))
+    os.makedirs(os.path.dirname(OUT), exist_ok=True)
+    open(os.path.join(os.path.dirname(OUT), "nums.txt"), "w").write("\n".join(str(n) for n in nums) + "\n")
     os.makedirs(os.path.dirname(OUT), exist_ok=True)
     text = "\n".join("x" + t.hex() for t in sorted(out)) + "\n"
     old = open(OUT).read() if os.path.exists(OUT) else None
